@@ -17,5 +17,5 @@ echo "== build + suite with change"; ( cd $WT && go build ./... && go test -vet=
 echo "== demo with change"; ( cd $WT && sh -c "$DEMO" >/tmp/mt-$$-mut.log 2>&1; echo "exit=$?"; tail -3 /tmp/mt-$$-mut.log )
 for id in $IDS; do echo "== check $id"; ( cd /verif && VERIF_REPO=$WT ./check $id quick 2>&1 | tail -4 ); done
 TAG=$(python3 -c "import hashlib,sys;print(hashlib.sha1(b'$WT').hexdigest()[:8])")
-rm -rf /verif/work/alt-$TAG /verif/go/alt-$TAG.* /tmp/mt-$$-*.log
+rm -rf /verif/work/vrepo-$TAG /verif/work/alt-$TAG /verif/go/alt-$TAG.* /tmp/mt-$$-*.log
 git -C /repo worktree remove --force $WT
